@@ -321,6 +321,11 @@ func c20Body(t *testing.T, combos [][]int, withStop bool, bound int, metrics ...
 			var trace []string
 			s.gates = &gateSet{}
 			s.gates.install()
+			defer func() {
+				if s.gates != nil { // (left here by a panic: never leave the process-wide gate hook of this execution behind)
+					s.gates.remove()
+				}
+			}()
 			// one more scheduling point: the moment a reply (acknowledgement or read result) leaves the store
 			stNc := inst.StNc
 			// requests whose delivery to a store handler was granted (the handler has started) / replies the store
